@@ -362,46 +362,61 @@ fn c15_memmove_plain() {
     }
 }
 
-/// `memcpy` between two distinct buffers, all four (plain|shared) x (plain|shared) combinations.
-// BOUND: source and destination buffers of 24 bytes; offsets and count symbolic within them
-// FN: memcpy, batched_copy_bytes_to_atomic, batched_copy_atomic_to_bytes, copy_shared_to_shared
+/// `memcpy` between a plain and a shared buffer (both directions): destination range == source range, nothing
+/// else written; offsets 0 or 1 on each side cover "same misalignment" (chunked path) and "different
+/// misalignment" (byte fallback).
+// BOUND: buffers of 24 bytes; source and destination offsets in {0, 1}; count symbolic within the buffers
+// FN: memcpy, batched_copy_bytes_to_atomic, compute_batch_offsets
 #[kani::proof]
 #[kani::unwind(26)]
-fn c15x_memcpy_all_combinations() {
+fn c15x_memcpy_plain_to_shared() {
     let sinit: [u8; M] = kani::any();
     let dinit: [u8; M] = kani::any();
-    let src_plain = AlignedM(sinit);
-    let src_atomic = AlignedAtomicM(std::array::from_fn(|i| AtomicU8::new(sinit[i])));
-    let mut dst_plain = AlignedM(dinit);
-    let dst_atomic = AlignedAtomicM(std::array::from_fn(|i| AtomicU8::new(dinit[i])));
-    let (so, d_o, count): (usize, usize, usize) = (kani::any(), kani::any(), kani::any());
-    kani::assume(so <= M && d_o <= M && count <= M - so && count <= M - d_o);
-    let src_shared: bool = kani::any();
-    let dst_shared: bool = kani::any();
-    kani::cover!(src_shared && !dst_shared && so == 0 && d_o == 0 && count == 24);
-    kani::cover!(!src_shared && dst_shared && so == 3 && d_o == 11 && count == 13);
-    kani::cover!(src_shared && dst_shared && so == 1 && d_o == 2 && count == 20);
+    let src = AlignedM(sinit);
+    let dst = AlignedAtomicM(std::array::from_fn(|i| AtomicU8::new(dinit[i])));
+    let (so, d_o): (usize, usize) = (kani::any::<bool>() as usize, kani::any::<bool>() as usize);
+    let count: usize = kani::any();
+    kani::assume(count <= M - 1);
+    kani::cover!(so == 0 && d_o == 0 && count == 23);
+    kani::cover!(so == 1 && d_o == 0 && count == 20);
     // ASSUME[unsafe]: ranges inside the buffers, buffers distinct
     unsafe {
-        let src = if src_shared {
-            BytesConstPtr::AtomicBytes(src_atomic.0.as_ptr()).add(so)
-        } else {
-            BytesConstPtr::Bytes(src_plain.0.as_ptr()).add(so)
-        };
-        let dst = if dst_shared {
-            BytesMutPtr::AtomicBytes(dst_atomic.0.as_ptr()).add(d_o)
-        } else {
-            BytesMutPtr::Bytes(dst_plain.0.as_mut_ptr()).add(d_o)
-        };
-        memcpy(src, dst, count);
+        memcpy(BytesConstPtr::Bytes(src.0.as_ptr()).add(so), BytesMutPtr::AtomicBytes(dst.0.as_ptr()).add(d_o), count);
     }
     let j: usize = kani::any();
     kani::assume(j < M);
-    let now = if dst_shared { dst_atomic.0[j].load(Ordering::Relaxed) } else { dst_plain.0[j] };
+    let now = dst.0[j].load(Ordering::Relaxed);
     if j >= d_o && j < d_o + count {
         assert!(now == sinit[so + (j - d_o)]);
     } else {
         assert!(now == dinit[j]);
+    }
+}
+
+// BOUND: buffers of 24 bytes; source and destination offsets in {0, 1}; count symbolic within the buffers
+// FN: memcpy, batched_copy_atomic_to_bytes, compute_batch_offsets
+#[kani::proof]
+#[kani::unwind(26)]
+fn c15x_memcpy_shared_to_plain() {
+    let sinit: [u8; M] = kani::any();
+    let dinit: [u8; M] = kani::any();
+    let src = AlignedAtomicM(std::array::from_fn(|i| AtomicU8::new(sinit[i])));
+    let mut dst = AlignedM(dinit);
+    let (so, d_o): (usize, usize) = (kani::any::<bool>() as usize, kani::any::<bool>() as usize);
+    let count: usize = kani::any();
+    kani::assume(count <= M - 1);
+    kani::cover!(so == 1 && d_o == 1 && count == 23);
+    kani::cover!(so == 0 && d_o == 1 && count == 20);
+    // ASSUME[unsafe]: ranges inside the buffers, buffers distinct
+    unsafe {
+        memcpy(BytesConstPtr::AtomicBytes(src.0.as_ptr()).add(so), BytesMutPtr::Bytes(dst.0.as_mut_ptr()).add(d_o), count);
+    }
+    let j: usize = kani::any();
+    kani::assume(j < M);
+    if j >= d_o && j < d_o + count {
+        assert!(dst.0[j] == sinit[so + (j - d_o)]);
+    } else {
+        assert!(dst.0[j] == dinit[j]);
     }
 }
 
